@@ -249,3 +249,7 @@ PROPS["C16"] = {
 
 PROPS["C10"]["mir"].append(ob("filter_offsets_agree", "ob_index", "filter_offsets_agree"))
 PROPS["C12"]["mir"].append(ob("fsync_flag_released", "ob_storage", "fsync_flag_released"))
+
+PROPS["C03"]["mir"] += [ob("read_blobs_max_id", "ob_storage", "read_blobs_max_id"), ob("init_ids_above_all", "ob_storage", "init_ids_above_all")]
+PROPS["C07"]["mir"] += [ob("read_blobs_max_id_c07", "ob_storage", "read_blobs_max_id"), ob("init_ids_above_all_c07", "ob_storage", "init_ids_above_all")]
+PROPS["C15"]["mir"] += [ob("read_blobs_max_id_c15", "ob_storage", "read_blobs_max_id")]
